@@ -710,6 +710,8 @@ func HeaderV(pkg string, v Variant) string {
 // Header of every generated .templ file: the fixed helper components of the spec.
 func Header(pkg string) string {
 	return "package " + pkg + "\n\n" +
+		"import \"strings\"\n\n" +
+		"func up(s string) string { return strings.ToUpper(s) }\n\n" +
 		"templ leaf() {\n\t<i>leaf</i>\n}\n\n" +
 		"templ wrap() {\n\t<section>\n\t\t{ children... }\n\t</section>\n}\n\n" +
 		"templ kid() {\n\t<u>kid</u>\n}\n\n"
